@@ -202,7 +202,16 @@ fn ending_client(c: usize, s: usize, descr: &mut Vec<String>) -> Client {
             ops.push(if gen::ratio(1, 2) { Op::Close } else { Op::Rst });
         }
     }
-    descr.push(format!("client {c}: {name}"));
+    // A connection the SERVER ends (error response, 500 after a panic, drop, 400) frees its
+    // slot whatever the client does afterwards: half of these clients read the answer and
+    // then just stay there, silent, never closing.
+    let mut lingers = "";
+    if (1..=4).contains(&ending) && gen::ratio(1, 2) && matches!(ops.last(), Some(Op::Fin)) {
+        ops.pop();
+        lingers = "; the client then stays connected and silent";
+        gen::count("probe.client_lingers_after_server_ended");
+    }
+    descr.push(format!("client {c}: {name}{lingers}"));
     let mut cl = Client::new(ops, gen::pick(&[Frag::Whole, Frag::Random]));
     cl.slow_read = gen::ratio(1, 4);
     cl
@@ -477,13 +486,13 @@ pub fn spec() -> PropertySpec {
     PropertySpec {
         id: "C12",
         level: "exploration",
-        rule: "Server level: max_conns 1-4, 2-3x as many simulated clients whose connections end in every listed way (normal close, handler 4xx/5xx, handler panic, dropped by the handler, malformed request, RST / FIN mid-head, abort mid-body, abort mid-upload, abort while the response is written, connect-and-close) in tape-chosen orders and overlaps with handlers held 'running' for tape-chosen spans; accept failures injected by the simulated listener (EMFILE bursts: the connection stays in the backlog; ECONNABORTED: it is gone; a dozen other transient errnos - ENFILE, ENOBUFS, ENOMEM stay in the backlog, EPROTO, ENETDOWN, EHOSTUNREACH, ... are gone), each followed in the real code by a 500 ms virtual sleep, in a share of the runs with a stopped global logger installed (accept failures are logged); task cancellation. Per-step invariant: connections being serviced <= max_conns and handler invocations in flight <= max_conns. Conservation by quiescence: after the history, max_conns+1 fresh connections with held handlers - exactly max_conns must reach their handler, then all are served once handlers are released. API level: EVERY TokenSet/Token sequence to depth 6 (quick) / 8 (thorough) for pool sizes 1-4, plus sampled sequences of depth 8-12, over {async take (cancelled when it would block), timed take, drop i-th} against a counter model. distinct = schedule hash / op sequence.",
+        rule: "Server level: max_conns 1-4, 2-3x as many simulated clients whose connections end in every listed way (normal close, handler 4xx/5xx, handler panic, dropped by the handler, malformed request, RST / FIN mid-head, abort mid-body, abort mid-upload, abort while the response is written, connect-and-close; after a server-ended connection half of the clients stay connected and silent for ever) in tape-chosen orders and overlaps with handlers held 'running' for tape-chosen spans; accept failures injected by the simulated listener (EMFILE bursts: the connection stays in the backlog; ECONNABORTED: it is gone; a dozen other transient errnos - ENFILE, ENOBUFS, ENOMEM stay in the backlog, EPROTO, ENETDOWN, EHOSTUNREACH, ... are gone), each followed in the real code by a 500 ms virtual sleep, in a share of the runs with a stopped global logger installed (accept failures are logged); task cancellation. Per-step invariant: connections being serviced <= max_conns and handler invocations in flight <= max_conns. Conservation by quiescence: after the history, max_conns+1 fresh connections with held handlers - exactly max_conns must reach their handler, then all are served once handlers are released. API level: EVERY TokenSet/Token sequence to depth 6 (quick) / 8 (thorough) for pool sizes 1-4, plus sampled sequences of depth 8-12, over {async take (cancelled when it would block), timed take, drop i-th} against a counter model. distinct = schedule hash / op sequence.",
         scenarios: vec![
             Scenario { name: "c12.server", property: "C12", func: server_level, runs_quick: 300_000, runs_thorough: 8_000_000, doc: "server level" },
             Scenario { name: "c12.token_api_enum", property: "C12", func: token_api_enum, runs_quick: 4 * 46_656, runs_thorough: 4 * 1_679_616, doc: "every slot-pool op sequence to depth 6 (quick) / 8 (thorough)" },
             Scenario { name: "c12.token_api", property: "C12", func: token_api, runs_quick: 300_000, runs_thorough: 5_000_000, doc: "slot pool API vs counter model" },
         ],
-        required_probes: vec!["probe.accept_failure_with_stopped_logger", "probe.limit_reached", "fault.accept_emfile", "fault.accept_aborted", "fault.accept_other_errno", "probe.accept_failed_then_probe_passed", "fault.client_rst", "job.panicked", "timer.sleep_for"],
+        required_probes: vec!["probe.accept_failure_with_stopped_logger", "probe.limit_reached", "fault.accept_emfile", "fault.accept_aborted", "fault.accept_other_errno", "probe.client_lingers_after_server_ended", "probe.accept_failed_then_probe_passed", "fault.client_rst", "job.panicked", "timer.sleep_for"],
         components: components_server(),
         assumptions: vec!["the kernel accept backlog is an unbounded queue in the simulated listener", "unbounded blocking pool: a held handler never starves another"],
     }
